@@ -25,6 +25,9 @@ from . import contract as C
 from . import extract
 
 REPLAY_PY = os.environ.get("UTYPE_REPLAY_PY", "/venv/bin/python")
+# evidence/ and replays/ are written under /verif; the seeded-change runner (tools/seeds.py) redirects them so that a run
+# against a scratch copy with a seeded change never overwrites the evidence of the real tree
+OUT = os.environ.get("VERIF_OUT", VERIF)
 _WORLD = None
 
 
@@ -225,6 +228,24 @@ def select_audits(prop):
 
 # ---------------------------------------------------------------------- replay
 
+def _lengths(params):
+    from .sym import VSeq, VMap, VRec
+    out, seen = [], set()
+
+    def walk(v, depth):
+        if id(v) in seen or depth > 4:
+            return
+        seen.add(id(v))
+        if isinstance(v, (VSeq, VMap)):
+            out.append(v.n)
+        elif isinstance(v, VRec):
+            for x in v.fields.values():
+                walk(x, depth + 1)
+    for v in params.values():
+        walk(v, 0)
+    return out
+
+
 def make_replay(w, prop, res, ob, tier):
     """Re-generate the failed obligation in this process, get a model, concretise, replay."""
     from .run import run_contract, run_lemma
@@ -237,7 +258,15 @@ def make_replay(w, prop, res, ob, tier):
         con = w.contracts[tuple(res["key"])]
         info["function"] = {"file": con.file, "qualname": con.qualname}
         info["contract"] = {"returns": con.returns_for(ob["case"]), "raises": con.raises_for(ob["case"]),
-                            "only_raises": con.only_raises}
+                            "only_raises": con.only_raises, "frame": con.frame}
+        rel = ["post:" + l for l in info["contract"]["returns"] if prop in con.clause_props("post", l)]
+        for en, cl in info["contract"]["raises"].items():
+            rel += ["exc-post:%s.%s" % (en, l) for l in cl if prop in con.clause_props("exc-post", "%s.%s" % (en, l))]
+        if prop in con.clause_props("raises-only", "only_raises"):
+            rel.append("raises-only:only_raises")
+        if prop in con.clause_props("frame", "no_input_mutation"):
+            rel.append("frame:no_input_mutation")
+        info["relevant_clauses"] = rel
         try:
             fsrc = extract.get_function(con.file, con.qualname, con.which)
             info["source"] = fsrc.text
@@ -263,13 +292,32 @@ def make_replay(w, prop, res, ob, tier):
         s.add(*w.axioms_for(target.pc + [target.goal]))
         s.add(*target.pc)
         s.add(z3.Not(target.goal))
-        if s.check() == z3.sat:
+        params = target.extra.get("params")
+        verdict = s.check()
+        if verdict == z3.sat and params:
+            # prefer a small counterexample: bound the length of every sequence / mapping among the parameters
+            lens = _lengths(params)
+            for bound in (3, 6, 12):
+                s.push()
+                s.add(*[n <= bound for n in lens])
+                try:
+                    small = s.check()
+                except z3.Z3Exception:
+                    small = z3.unknown
+                if small == z3.sat:
+                    break
+                s.pop()
+        if verdict == z3.sat:
             m = s.model()
             model_txt = str(m)[:4000]
-            params = target.extra.get("params")
             if params and res["kind"] == "contract":
                 try:
-                    info["candidates"] = candidates(w, m, params)
+                    if getattr(con, "replay", None):
+                        from . import leafworld
+                        info["builder"] = con.replay
+                        info["leafworld"] = leafworld.describe(w, m, params)
+                    else:
+                        info["candidates"] = candidates(w, m, params)
                 except CannotConcretize as e:
                     info["concretize"] = "not possible: %s" % e
                 except Exception as e:  # noqa
@@ -277,7 +325,7 @@ def make_replay(w, prop, res, ob, tier):
         info["path_condition"] = [str(p)[:300] for p in target.pc][:40]
         info["goal"] = str(target.goal)[:1500]
     info["solver"]["model"] = model_txt
-    d = os.path.join(VERIF, "replays", prop)
+    d = os.path.join(OUT, "replays", prop)
     os.makedirs(d, exist_ok=True)
     h = hashlib.sha256((ob["oid"] + repr(ob["path"])).encode()).hexdigest()[:12]
     path = os.path.join(d, "%s.json" % h)
@@ -291,7 +339,7 @@ def run_replay(path):
     with open(path) as f:
         info = json.load(f)
     status = "no-failing-input-found"
-    if info.get("candidates"):
+    if info.get("candidates") or info.get("leafworld"):
         try:
             env = dict(os.environ)
             env["UTYPE_REPO"] = REPO
@@ -520,8 +568,8 @@ def report(prop, tier, seed, results, w, gen_wall, t0):
         # schema: discharged must equal obligations for a proof claim; known findings are reported
         # separately and keep the claim honest: see failed_known
         ev["coverage"]["note"] = "discharged + failed_known = obligations; failed_known are listed findings (KNOWN_FINDINGS.jsonl)"
-    os.makedirs(os.path.join(VERIF, "evidence"), exist_ok=True)
-    with open(os.path.join(VERIF, "evidence", "%s.json" % prop), "w") as f:
+    os.makedirs(os.path.join(OUT, "evidence"), exist_ok=True)
+    with open(os.path.join(OUT, "evidence", "%s.json" % prop), "w") as f:
         json.dump(ev, f, indent=1)
     print("%s: obligations=%d discharged=%d known=%d refuted=%d undecided=%d functions=%d solver=%.1fs wall=%.1fs" % (
         prop, n_ob, n_dis, n_known, len(seen_v), len(undecided), len(functions), solver_s, wall))
@@ -535,7 +583,7 @@ def report(prop, tier, seed, results, w, gen_wall, t0):
 
 
 def write_min_replay(prop, ob, why):
-    d = os.path.join(VERIF, "replays", prop)
+    d = os.path.join(OUT, "replays", prop)
     os.makedirs(d, exist_ok=True)
     h = hashlib.sha256((ob["oid"] + repr(ob["path"])).encode()).hexdigest()[:12]
     path = os.path.join(d, "%s.json" % h)
